@@ -914,6 +914,32 @@ func registerVFS(p *Program) {
 		}
 		return Tuple{sl, e}
 	}
+	I["os.ReadDir"] = func(in *Interp, fr *frame, a []Value) Value {
+		fs := in.env.FS()
+		f, e := fs.openFile(a[0].(Str), oRDONLY, 0)
+		if e.T != nil {
+			return Tuple{Slice{}, e}
+		}
+		vf := fileOf(f)
+		ents, e2 := listDir(in, vf, -1, "readdirent")
+		fs.event(fsEvent{Op: "close", Path: vf.path, Ino: vf.ino.id})
+		if e2.T != nil {
+			return Tuple{Slice{}, e2}
+		}
+		// sorted by file name (insertion sort; symbolic names fork on the comparison)
+		sorted := append([]*dirent(nil), ents...)
+		for i := 1; i < len(sorted); i++ {
+			for j := i; j > 0 && in.Branch(in.strLess(sorted[j].name, sorted[j-1].name)); j-- {
+				sorted[j], sorted[j-1] = sorted[j-1], sorted[j]
+			}
+		}
+		it := in.namedType("io/fs", "DirEntry")
+		sl := Slice{Obj: in.newArray(it, len(sorted)), Len: len(sorted), Cap: len(sorted)}
+		for i, d := range sorted {
+			sl.Obj.Slots[i] = fs.dirEntry(d.name, d.ino)
+		}
+		return Tuple{sl, Iface{}}
+	}
 	I["syscall.Errno.Error"] = func(in *Interp, fr *frame, a []Value) Value {
 		t := a[0].(*Term)
 		if t.IsConst() {
